@@ -41,6 +41,12 @@ pub struct GenOpts {
     pub helpers: usize,
     /// C13: prefer conditional macros and make sure every macro is instantiated
     pub macro_focus: bool,
+    /// chance (of 256) of splicing the "shared prefix" family: alternatives
+    /// with a common prefix continued by a terminal, by a nonterminal starting
+    /// with that terminal, and by an empty non-inlined nonterminal (the state
+    /// after the prefix reduces the empty production with a real lookahead
+    /// while its successor states consume the prefix only optionally)
+    pub shared_prefix: u32,
 }
 
 impl GenOpts {
@@ -72,6 +78,7 @@ impl GenOpts {
             clone_only_loc: false,
             helpers: 0,
             macro_focus: false,
+            shared_prefix: 0,
         }
     }
     pub fn plain() -> GenOpts {
@@ -102,6 +109,7 @@ impl GenOpts {
             clone_only_loc: false,
             helpers: 0,
             macro_focus: false,
+            shared_prefix: 0,
         }
     }
 }
@@ -679,6 +687,48 @@ pub fn gen_full(t: &mut Tape, o: &GenOpts) -> GSpec {
         g.spec.nts[ni].alts = alts;
         g.spec.nts[ni].ty = ty;
     }
+    // shared-prefix family (targets empty reductions below the start state)
+    if g.o.shared_prefix > 0 && g.t.chance(g.o.shared_prefix) && g.spec.terms.len() >= 4 && g.spec.lexer != Lexer::Builtin {
+        let nterms = g.spec.terms.len();
+        let base = g.spec.nts.len();
+        let off = g.t.below(nterms);
+        let tm = |i: usize| SymKind::T((off + i) % nterms);
+        let (ta, t0, t1, tz) = (tm(0), tm(1), tm(2), tm(3));
+        let user = |syms: Vec<SymKind>| AltSpec::new(syms.into_iter().map(SymSpec::plain).collect(), Act::User { fallible: false, style: Style::Angle });
+        let mk = |name: String, alts: Vec<AltSpec>| NtSpec { name, public: false, inline: false, ty: Some(Ty::Str), alts, cfg: vec![], params: vec![] };
+        // indices: base = SPX, base+1 = SPA, base+2 = SPB, base+3 = SPE
+        let (spx, spa, spb, spe) = (base, base + 1, base + 2, base + 3);
+        let two_prefix = g.t.chance(90);
+        let prefix = |extra: Vec<SymKind>| -> Vec<SymKind> {
+            let mut v = vec![SymKind::N(spa)];
+            if two_prefix {
+                v.push(tm(0));
+            }
+            v.extend(extra);
+            v
+        };
+        let mut x_alts = vec![user(prefix(vec![t0.clone()])), user(prefix(vec![SymKind::N(spb)])), user(prefix(vec![SymKind::N(spe), tz.clone()]))];
+        if g.t.chance(80) {
+            // the empty nonterminal at the very end (reduced at end of input or before a follower)
+            x_alts.push(user(prefix(vec![tm(2), SymKind::N(spe)])));
+        }
+        let e_syms: Vec<SymKind> = match g.t.below(4) {
+            0 => vec![],
+            1 => vec![SymKind::L],
+            2 => vec![SymKind::R],
+            _ => vec![SymKind::L, SymKind::R],
+        };
+        g.spec.nts.push(mk(format!("SPX{base}"), x_alts));
+        g.spec.nts.push(mk(format!("SPA{base}"), vec![user(vec![ta.clone()])]));
+        g.spec.nts.push(mk(format!("SPB{base}"), vec![user(vec![t0.clone(), t1.clone()])]));
+        g.spec.nts.push(mk(format!("SPE{base}"), vec![user(e_syms)]));
+        if g.t.chance(128) {
+            g.spec.nts[spx].public = true;
+        } else {
+            let lead = SymKind::T(g.t.below(nterms));
+            g.spec.nts[0].alts.push(user(vec![lead, SymKind::N(spx)]));
+        }
+    }
     // C13: every macro gets at least two instantiations with different arguments
     if g.o.macro_focus {
         let macros = g.macros.clone();
@@ -1009,9 +1059,23 @@ pub fn gen_cfg(t: &mut Tape) -> (GSpec, Vec<&'static str>) {
             tags.push("template:lr1-not-lalr");
             let o = t.below(nterms);
             let (a, b, c, d, e) = (tm(o), tm(o + 1), tm(o + 2), tm(o + 3), tm(o + 4));
-            let inner: Vec<SymKind> = if t.chance(100) { vec![c.clone(), c.clone()] } else { vec![c.clone()] };
-            let an = add(&mut spec, "TA", vec![inner.clone()]);
-            let bn = add(&mut spec, "TB", vec![inner]);
+            // the two inner nonterminals derive the same strings: one of
+            // several body shapes, optionally right-recursive with shared prefixes
+            let an_idx = base;
+            let bn_idx = base + 1;
+            let f = tm(o + 5);
+            let body = |me: usize, shape: usize| -> Vec<Vec<SymKind>> {
+                match shape {
+                    0 => vec![vec![c.clone()]],
+                    1 => vec![vec![c.clone(), c.clone()]],
+                    2 => vec![vec![c.clone(), f.clone(), SymKind::N(me)], vec![c.clone(), f.clone()], vec![c.clone()]],
+                    3 => vec![vec![c.clone(), SymKind::N(me)], vec![c.clone()]],
+                    _ => vec![vec![c.clone(), f.clone()], vec![c.clone()]],
+                }
+            };
+            let shape = t.below(5);
+            let an = add(&mut spec, "TA", body(an_idx, shape));
+            let bn = add(&mut spec, "TB", body(bn_idx, shape));
             let s = add(
                 &mut spec,
                 "TS",
@@ -1215,7 +1279,19 @@ pub fn gen_prec(t: &mut Tape) -> GSpec {
                 _ => None,
             }
         };
+        let follow_up = (kind == 1 || kind == 4) && alt.assoc.is_some() && alt.assoc != Some(Assoc::All) && e.alts.len() + 1 < 7 && t.chance(100);
         e.alts.push(alt);
+        if follow_up {
+            // the same level named again, without an associativity: the
+            // documented rule resets it to `all` (prefix / postfix operators
+            // tell `all` from `none`)
+            let op = SymKind::T(ops[(ai + 2) % ops.len()]);
+            let syms = if t.chance(128) { vec![op, me.clone()] } else { vec![me.clone(), op] };
+            let mut alt2 = user(syms);
+            alt2.prec = Some(cur_lvl);
+            alt2.assoc = None;
+            e.alts.push(alt2);
+        }
     }
     // associativity other than `all` on the lowest level is an error (A.3):
     // compute effective (level, assoc) with inheritance and neutralise
